@@ -6,9 +6,23 @@ use crate::{RunOutcome, Sim};
 use serde_json::Value;
 use std::time::{Duration, Instant};
 
-fn fails_same(sim: &dyn Sim, replay: &Value, property: &str, oracle: &str) -> Option<RunOutcome> {
+/// The context tag an oracle appends to its message ("[...]": which recognised history this is),
+/// shortened so that numbers inside it do not matter. Known findings are matched on these tags, so
+/// a minimised trace must keep the tag (or the absence of one) of the original failure.
+pub fn context_tag(message: &str) -> String {
+	match message.find(" [") {
+		Some(i) => message[i + 2..].chars().take(40).collect(),
+		None => String::new(),
+	}
+}
+
+fn fails_same_tag(
+	sim: &dyn Sim, replay: &Value, property: &str, oracle: &str, tag: Option<&str>,
+) -> Option<RunOutcome> {
 	let out = run_isolated(|| sim.replay(replay));
-	if out.violations.iter().any(|v| v.property == property && v.oracle == oracle) {
+	if out.violations.iter().any(|v| {
+		v.property == property && v.oracle == oracle && tag.map(|t| context_tag(&v.message) == t).unwrap_or(true)
+	}) {
 		Some(out)
 	} else {
 		None
@@ -34,9 +48,16 @@ pub fn shrink(
 	};
 	// First make sure the literal replay fails at all (it should: same actions, no PRNG).
 	spent += 1;
-	if fails_same(sim, &with_trace(replay, &trace), property, oracle).is_none() {
-		return (replay.clone(), spent);
-	}
+	let tag: String = match fails_same_tag(sim, &with_trace(replay, &trace), property, oracle, None) {
+		Some(out) => out
+			.violations
+			.iter()
+			.find(|v| v.property == property && v.oracle == oracle)
+			.map(|v| context_tag(&v.message))
+			.unwrap_or_default(),
+		None => return (replay.clone(), spent),
+	};
+	let fails_same = |sim: &dyn Sim, r: &Value, p: &str, o: &str| fails_same_tag(sim, r, p, o, Some(tag.as_str()));
 	// Truncate after the failing step: everything after the first failure is irrelevant.
 	let mut n = 2usize;
 	while trace.len() >= 2 && start.elapsed() < wall_budget {
